@@ -12,8 +12,8 @@ from checks import progs
 def sample_programs(out, tier, wd, rnd):
     """A sample of the shared corpus, stratified by construct: for every production label, `per` programs that contain it
     (so that rare constructs such as re-apply or else-chains are always present), plus a uniform sample."""
-    plan = [("MC_Programs_q3", 120, 2500), ("MC_Programs_calls6", 30, 500), ("MC_Programs_conds5", 40, 700), ("MC_Programs_lists5", 25, 400), ("MC_Programs_chains7", 8, 60)]
-    per = 6 if tier == "quick" else 40
+    plan = [("MC_Programs_q3", 120, 600), ("MC_Programs_calls6", 30, 150), ("MC_Programs_conds5", 40, 200), ("MC_Programs_lists5", 25, 120), ("MC_Programs_chains7", 8, 30)]
+    per = 6 if tier == "quick" else 15
     chosen, parts, seen = [], [], set()
 
     def take(p):
@@ -76,7 +76,7 @@ def run(out, tier, seed):
         nsingle = n
         # random combinations of rewrites on a smaller sample
         sfile = os.path.join(wd, "progs_sim.ndjson")
-        vlib.write_ndjson(sfile, [dict(p, seed=rnd.randrange(1 << 20)) for p in (chosen if tier == "quick" else rnd.sample(chosen, min(len(chosen), 1500)))])
+        vlib.write_ndjson(sfile, [dict(p, seed=rnd.randrange(1 << 20)) for p in (chosen if tier == "quick" else rnd.sample(chosen, min(len(chosen), 800)))])
         # random mode: every behaviour draws one random combination (COPIES behaviours per program), explored breadth-first
         _, res = vlib.generate(out.pid, "MC_Layout", "MC_Layout_sim", os.path.join(wd, "combo.ndjson"), env={"PROGS": sfile}, transform=tr, timeout=3000)
         out.add_model(res)
